@@ -647,9 +647,21 @@ func runAll(w *workload, objs []*fsobj.Obj, faults []fault, order uint64, budget
 		j := int(x % uint64(i+1))
 		faults[i], faults[j] = faults[j], faults[i]
 	}
+	// faults on the batch file itself first (they are the ones that can coincide with a batch limit): when the time
+	// budget cuts the list, the cut hits directory/open faults rather than these
+	prio := func(f fault) int {
+		for _, i := range f.inj {
+			switch i.Syscall {
+			case "linkat", "fdatasync", "close", "writev":
+				return 0
+			}
+		}
+		return 1
+	}
+	sort.SliceStable(faults, func(a, b int) bool { return prio(faults[a]) < prio(faults[b]) })
 	nw := workers()
 	for at := 0; at < len(faults); at += nw {
-		if at >= nw && budget.Exceeded() {
+		if at >= 2*nw && budget.Exceeded() {
 			skipped = len(faults) - at
 			break
 		}
